@@ -51,7 +51,6 @@ def main(argv):
         # the implementation under test prints warnings/progress: keep stdout for the verdict lines only
         import contextlib, io
         workers = int(os.environ.get('VERIF_WORKERS', '0') or 0) or (1 if tier == 'quick' else 8)
-        os.environ.setdefault('OMP_NUM_THREADS', '2' if workers > 1 else '8')
         futs = []
         pool = None
         if workers > 1:
